@@ -4,12 +4,18 @@ Only files whose text changes are touched (so make rebuilds only what changed).
 Prints one line per untranslatable root; exit status 0 either way."""
 import os, sys
 sys.path.insert(0, os.path.dirname(os.path.abspath(__file__)))
-import py2coq, roots
+import py2coq, roots, tables, xfer
 
 
 def regen(root='/repo', out=None):
     out = out or os.path.join(os.path.dirname(os.path.abspath(__file__)), '..', 'coq', 'gen')
     files, failed = py2coq.generate(root, roots.LAYERS)
+    ttext, tfailed = tables.gen_tables(root)
+    files['T_tables'] = ttext
+    failed.update(tfailed)
+    xtext, xfailed = xfer.gen_xfer(root)
+    files['X_xfer'] = xtext
+    failed.update(xfailed)
     os.makedirs(out, exist_ok=True)
     changed = []
     for stem, text in files.items():
